@@ -2240,3 +2240,26 @@ Proof.
   intros C g. destruct (reachable_SInv orc clock cf ops C) as [[S I] CF].
   split; [exact S|]. split; [exact I|]. split; [apply reachable_fw_avail; exact C|exact CF].
 Qed.
+
+(* the reference automaton itself has the shape the property asks for *)
+Lemma spec_progress k k' i : srun (Requested k) [CfgReq; CfgReq; BlkReq k' i; CfgReq] =
+  (Fetching k, [CfgResp k; CfgResp k; BlkResp k' i; NoOut]).
+Proof. reflexivity. Qed.
+
+Lemma spec_no_reflash k : forall is, forallb (fun i => negb (is_update i)) is = true ->
+  fst (srun (Fetching k) is) = Fetching k /\ forallb (fun o => negb (is_cfg_resp o)) (snd (srun (Fetching k) is)) = true.
+Proof.
+  induction is as [|i r IH]; intro H; [split; reflexivity|].
+  cbn [forallb] in H. apply andb_true_iff in H as [H1 H2]. destruct (IH H2) as [A B].
+  destruct i as [x| |x b|]; [discriminate H1| | |]; cbn [srun sstep];
+    destruct (srun (Fetching k) r) as [s2 os]; cbn [fst snd forallb] in *; split; auto.
+Qed.
+
+Lemma spec_restart s k : fst (sstep s (Update k)) = Requested k.
+Proof. reflexivity. Qed.
+
+Lemma spec_malformed s : sstep s Malformed = (s, NoOut).
+Proof. reflexivity. Qed.
+
+Lemma spec_restart_malformed s k : fst (sstep s (Update k)) = Requested k /\ sstep s Malformed = (s, NoOut).
+Proof. split; reflexivity. Qed.
